@@ -258,6 +258,15 @@ func (c *Ctx) assumeAlive(st *State, r Term) {
 // obligations ------------------------------------------------------------------
 
 func (c *Ctx) oblige(st *State, fr *Frame, kind, detail, label string, pos token.Pos, goal Term, props []string, src string) {
+	if fr != nil && fr.fc != nil && fr.fc.NoSafety && fr.inlineOf == "" {
+		switch kind {
+		case "index", "slice", "nilmap", "typeassert", "div", "makeslice", "nilderef":
+			// `nosafety`: the function is under contract for a property that says nothing about these; assumed, and said so
+			c.V.assumptions["A-NOSAFETY: run-time safety obligations (index, slice, nil map, type assertion) of "+c.Key+" are not generated (outside the property it is under contract for); the conditions are assumed"] = true
+			st.assume(goal)
+			return
+		}
+	}
 	fnKey := c.Key
 	inl := ""
 	if fr != nil && fr.inlineOf != "" {
